@@ -361,7 +361,7 @@ func c12(run *ev.Run, tier string) {
 	ncfg, reps := 4, 5
 	gmps := []int{2, 16}
 	if tier == "thorough" {
-		ncfg, reps = 12, 20
+		ncfg, reps = 12, 10
 		gmps = []int{1, 2, 4, 8, 16}
 	}
 	if *flagCases > 0 {
